@@ -12,6 +12,10 @@
 (*  Switch{entry, rule, value, got, moved}: one rule switched on or off through the   *)
 (*     harper-ls settings or the harper-wasm JSON, overlaid on the curated defaults:   *)
 (*     the explicit choice comes out and no other rule moves (every rule, both ways).  *)
+(*  Effective{entry, explicit, unknown, missing, wrong}: a configuration of a given   *)
+(*     shape (complete, nearly complete, padded with unknown names, nulls) overlaid on   *)
+(*     the curated defaults: wrong counts the rules whose effective switch is not        *)
+(*     "explicit value, else curated default".                                           *)
 (*  Overlay{want[], ls[], wasm_ok, wasm_roundtrip_ok}: user settings overlaid on    *)
 (*     curated defaults through harper-ls's and harper-wasm's entry formats.        *)
 EXTENDS ConfigOps, Json, IOUtils
@@ -61,6 +65,8 @@ Check(e) ==
          IF e.got # e.value THEN PrintT(<<"REJECT", l, "explicit-choice-lost", e.entry>>)
          ELSE IF e.moved # 0 THEN PrintT(<<"REJECT", l, "switch-moved-another-rule", e.entry>>)
          ELSE TRUE
+    [] e.ev = "Effective" ->
+         IF e.wrong # 0 THEN PrintT(<<"REJECT", l, "overlay-gives-a-rule-the-wrong-switch", e.entry>>) ELSE TRUE
     [] e.ev = "Overlay" ->
          IF ~BagEq(e.want, e.ls) THEN PrintT(<<"REJECT", l, "ls-overlay-differs", "">>)
          ELSE IF ~e.wasm_ok THEN PrintT(<<"REJECT", l, "wasm-overlay-differs", "">>)
